@@ -571,6 +571,9 @@ def jobs(tier):
     # explicit indices declared in the source (fills and gradient stops) must reach the paints
     from harness import C01_source
 
+    from harness import C01
+
+    js.append(Job("ufo_colr_layers", C01.job_ufo_layers))  # palette indices written into the paints, currentColor -> 0xFFFF (fills and stops)
     for name in ("gradient stops with palette variables", "palette variable whose default has an alpha channel + shape opacity", "currentColor and palette variables"):
         js.append(Job(f"source[{name}|user identity]", C01_source.job_source, source=name, user="identity"))
     return js
